@@ -82,6 +82,18 @@ def plan(tier, seed):
                             pr = {k: v[:2] for k, v in al.items() if 'Sale Price' in k or 'Escalation' in k}
                             for ch in e1.deviations(pr, 2):
                                 P.append({'fam': fam, 'changes': ch})
+    # closed-loop (SBT) economics
+    for fam in F.sbt_grid(shapes=((6, 2, 1), (2, 2, 3)) if tier == 'quick' else ((6, 2, 1), (2, 2, 3), (30, 1, 1), (1, 2, 14))):
+        s = fam['shape']
+        P.append({'fam': fam, 'changes': {}, 'base': True})
+        ptcs = [ptc(d, a) for d in sorted({0, 1, min(2, s[0]), s[0]}) for a in (False, True)]
+        for st in STRUCT + ptcs:
+            ch = dict(st)
+            if 'Do AddOn Calculations' in ch:
+                ch.pop('Construction Years', None)
+                if s[2] != 1:
+                    continue
+            P.append({'fam': fam, 'changes': ch})
     return P
 
 
